@@ -44,6 +44,16 @@ func pillarObs(l *calendar.Lunar) obj {
 		o["ec2"] = []string{ec.GetYear(), ec.GetMonth(), ec.GetDay(), ec.GetTime()}
 		// the chart as it prints itself under each convention (the four pillars separated by blanks)
 		o["ecs"] = []string{s1, ec.String()}
+		// the deprecated array accessor (the default convention, the chart is back on 2 here)
+		o["bz"] = l.GetBaZi()
+		// the thirteen hour objects of the day as this object lists them (hours 0, 1, 3, ..., 23): their pillars
+		if so := l.GetSolar(); so.GetHour() == 23 || so.GetSecond()%4 == 0 {
+			tms := [][]int{}
+			for _, t := range l.GetTimes() {
+				tms = append(tms, []int{t.GetGanIndex(), t.GetZhiIndex()})
+			}
+			o["times"] = tms
+		}
 		o["tm"] = []int{l.GetTime().GetGanIndex(), l.GetTime().GetZhiIndex()}
 		// extension (outside C05): the bounds of the two-hour slot as the hour object prints them
 		o["hm"] = [][]int{codepoints(l.GetTime().GetMinHm()), codepoints(l.GetTime().GetMaxHm())}
